@@ -95,7 +95,7 @@ impl Property for C03 {
         ]
     }
     fn cases(&self, tier: Tier) -> usize {
-        tier.pick(8000, 40_000)
+        tier.pick(20000, 400_000)
     }
     fn strategy(&self, tier: Tier) -> BoxedStrategy<History> {
         history(W_PRUNE, tier.pick(5, 8))
